@@ -20,7 +20,7 @@ import numpy as np
 from gymnasium import spaces
 
 from .common import *   # noqa: F401,F403
-from .common import Case, Ob, require, val, elems, eq, conj, disj, neg, HarnessError, patched, ShimNumpy
+from .common import Case, Ob, require, val, elems, eq, le, ge, conj, disj, neg, HarnessError, patched, ShimNumpy, smin, smax
 from symx.core import Sym
 from symx.shim import ShimInt
 
@@ -346,14 +346,114 @@ class Accounting(Case):
         return res
 
 
+class EnvAction(Case):
+    """on-policy loops with a Box action space: what the loop hands to env.step() is a member of the action space - the agent's
+    action scaled (PPO: a squashed policy's sample lies in [-1,1] and is scaled by the loop) or left alone (IPPO: the
+    policy's forward pass has already scaled it) or clipped (unsquashed policies)"""
+    stubs = ("environment = scripted vector env recording the actions it is stepped with", "agent = duck agent whose actor(s) are REAL StochasticActor networks (their scale_action and bounds are used by the loops); "
+             "get_action returns arbitrary values within the algorithm's contract as decided under C14: PPO returns the raw sample (in [-1,1] when squashed), IPPO the output of actor.forward (inside the box when squashed)")
+    LOW, HIGH = [-1.0, 0.5], [2.0, 0.75]
+
+    def __init__(self, loop, squash, E=2, steps=2):
+        from agilerl.networks.actors import StochasticActor
+        self.loop, self.squash, self.E, self.steps = loop, squash, E, steps
+        self.mod, self.fn = LOOPS[loop]
+        self.functions = (getattr(self.mod, self.fn), StochasticActor.scale_action)
+        self.name = f"env-action-{self.fn}-{'squash' if squash else 'nosquash'}-envs{E}"
+        self.site = f"{self.fn}/action-handed-to-the-environment"
+        self.bounds = {"loop": self.fn, "num_envs": E, "squash_output": squash, "bounds": "per-dimension: low [-1, 0.5], high [2, 0.75]", "steps": steps, "symbolic": "every action value the agent returns"}
+        self._actor = None
+
+    def actor(self):
+        from agilerl.networks.actors import StochasticActor
+        if self._actor is None:
+            asp = spaces.Box(np.array(self.LOW, dtype=np.float32), np.array(self.HIGH, dtype=np.float32))
+            self._actor = StochasticActor(spaces.Box(-1, 1, (1,)), asp, squash_output=self.squash, encoder_config={"hidden_size": [2]}, head_config={"hidden_size": [2]})
+        return self._actor
+
+    def run(self, v):
+        E, loop = self.E, self.loop
+        multi = ["ag_0", "ag_1"] if loop == "ma-on" else None
+        asp = spaces.Box(np.array(self.LOW, dtype=np.float32), np.array(self.HIGH, dtype=np.float32))
+        actor = self.actor()
+        require(actor, "scale_action", "squash_output", "action_low", "action_high")
+        case = self
+        sent, given = [], []
+
+        class Env(VecEnv):
+            def step(self, action):
+                sent.append(action)
+                return super().step(action)
+
+        class PG(Agent):
+            def get_action(self, *a, **k):
+                self.env_steps_taken += E
+                t = len(given)
+                if multi:
+                    acts = {}
+                    for a_ in multi:
+                        arr = v.array(f"act{t}_{a_}", (E, 2))
+                        if case.squash:          # IPPO: actor.forward has scaled the sample into the box
+                            for x, lo, hi in [(arr[e, k_], case.LOW[k_], case.HIGH[k_]) for e in range(E) for k_ in range(2)]:
+                                v.assume(conj(x >= lo, x <= hi), "IPPO returns the scaled action of a squashed policy (C14)")
+                        acts[a_] = arr
+                    given.append(acts)
+                    z = {a_: np.zeros(E) for a_ in multi}
+                    return acts, z, z, z
+                arr = v.array(f"act{t}", (E, 2))
+                if case.squash:                  # PPO: the head's tanh sample, not yet scaled
+                    for x in elems(arr):
+                        v.assume(conj(x >= -1, x <= 1), "PPO returns the squashed sample in [-1,1] in training mode (C14)")
+                given.append(arr)
+                return arr, np.zeros(E), np.zeros(E), np.zeros(E)
+
+        env = Env(E, multi)
+        ag = PG(0, env, self.steps * E, loop, multi)
+        ag.action_space = {a: asp for a in multi} if multi else asp
+        if multi:
+            ag.actors = [actor]
+        else:
+            ag.actor = actor
+        patches = [(self.mod, "trange", lambda *a, **k: _Bar()), (self.mod, "print", lambda *a, **k: None)]
+        fn = getattr(self.mod, self.fn)
+        with patched(*patches):
+            if multi:
+                fn(env, "stub-env", "Duck", [ag], sum_scores=True, max_steps=self.steps * E, evo_steps=self.steps * E, verbose=False)
+            else:
+                fn(env, "stub-env", "Duck", [ag], max_steps=self.steps * E, evo_steps=self.steps * E, verbose=False)
+        res = [Ob("one-environment-step-per-action", len(sent) == len(given) and len(sent) >= 1)]
+        if len(sent) != len(given):
+            return res
+        for t, (s_, g) in enumerate(zip(sent, given)):
+            pairs = [(a_, np.asarray(s_[a_]), g[a_]) for a_ in multi] if multi else [("", np.asarray(s_), g)]
+            for tag, got, raw in pairs:
+                ok = tuple(got.shape) == (E, 2)
+                res.append(Ob(f"step{t}/{tag}/action-has-the-batch-shape", ok))
+                if not ok:
+                    continue
+                for e in range(E):
+                    for k_ in range(2):
+                        lo, hi, x, r = self.LOW[k_], self.HIGH[k_], got[e, k_], raw[e, k_]
+                        res.append(Ob(f"step{t}/{tag}/env{e}/dim{k_}/inside-the-action-space", conj(ge(x, lo), le(x, hi)), site=self.site))
+                        if self.squash and not multi:
+                            res.append(Ob(f"step{t}/{tag}/env{e}/dim{k_}/squashed-sample-scaled-affinely-into-the-box", eq(x, lo + 0.5 * (r + 1) * (hi - lo)), site=self.site))
+                        elif self.squash:
+                            res.append(Ob(f"step{t}/{tag}/env{e}/dim{k_}/already-scaled-action-is-handed-on-unchanged", eq(x, r), site=self.site))
+                        else:
+                            res.append(Ob(f"step{t}/{tag}/env{e}/dim{k_}/unsquashed-action-is-clipped", eq(x, smin(smax(r, lo), hi)), site=self.site))
+        return res
+
+
 def cases(tier):
     cs = [Accounting("on", 1), Accounting("on", 2), Accounting("ma-on", 2), Accounting("off", 1), Accounting("off", 2),
           Accounting("ma-off", 2), Accounting("bandit", 1), Accounting("offline", 1),
           Accounting("off", 2, ready=True), Accounting("ma-off", 2, ready=True), Accounting("bandit", 1, ready=True),
-          Accounting("on", 2, evolve=True), Accounting("off", 2, evolve=True, ready=True), Accounting("bandit", 1, evolve=True)]
+          Accounting("on", 2, evolve=True), Accounting("off", 2, evolve=True, ready=True), Accounting("bandit", 1, evolve=True),
+          EnvAction("on", True, E=1), EnvAction("on", False, E=1), EnvAction("ma-on", True, E=1), EnvAction("ma-on", False, E=1, steps=1)]
     if tier == "thorough":
         cs += [Accounting("on", 3, pop=3), Accounting("ma-on", 1, pop=3), Accounting("off", 3, pop=3),
                Accounting("ma-off", 1, pop=3, ready=True), Accounting("off", 3, pop=3, ready=True), Accounting("off", 1, ready=True),
                Accounting("ma-on", 2, evolve=True), Accounting("ma-off", 2, evolve=True), Accounting("offline", 1, evolve=True),
-               Accounting("on", 1, pop=3, evolve=True), Accounting("bandit", 1, pop=3, evolve=True, ready=True)]
+               Accounting("on", 1, pop=3, evolve=True), Accounting("bandit", 1, pop=3, evolve=True, ready=True),
+               EnvAction("on", True, E=2), EnvAction("on", False, E=2, steps=1), EnvAction("ma-on", True, E=2), EnvAction("ma-on", False, E=1, steps=2)]
     return cs
